@@ -12,8 +12,9 @@ RULE = ("grammar: atoms {x, y, beta_2, 2, -1, 0, 1, 1/3, -3/2, Float(0.5), I}; u
         "at every position of every depth-<=1 context must not come back as something else; natural keys: ALL names of length <= 5 over {a,b,_,0,1,2,9} against an "
         "independent scanner. non-trivial = tree containing a symbol and at least one operation")
 RULE += ' An unsupported node still present in the expression (as sympy holds it) must be refused whatever value comes back.'
+RULE += ' Round 7: a plain Symbol next to a Dummy / Wild of the same name (they print differently) is never merged.'
 RULE += ' Round 5: integers beyond 2^53 must round-trip exactly (rationals by value); 600-1200 refused translations interleaved with supported ones in one process.'
-ASSUMPTIONS = ["trees whose own value is nan/infinite at an assignment are skipped there (counted)", "relative tolerance 1e-9 on values"]
+ASSUMPTIONS = ["the neutral tree stores symbols by their printed name: distinct symbols that print alike (two Dummy('x'); x next to x with assumptions) are one symbol to it and are outside the alphabet", "trees whose own value is nan/infinite at an assignment are skipped there (counted)", "relative tolerance 1e-9 on values"]
 BOUNDS = {"quick": {"depth": 2, "names_len": 4}, "thorough": {"depth": 3, "names_len": 5}}
 X, Y, B2 = sympy.symbols("x y beta_2")
 ASSIGN = [{X: 0.7, Y: -1.3, B2: 0.4}, {X: -0.2, Y: 2.1, B2: 1.7}]
@@ -293,6 +294,27 @@ def symbol_name_case(case):
     return {"ok": True, "nt": True, "ops": k, "out": "names"}
 
 
+def twin_symbol_case(case):
+    """{'name': n}: DISTINCT symbols that share a name (a plain Symbol, a Dummy, a Wild, a Symbol with assumptions) inside one expression: the translation must not merge them -
+    the value at an assignment that gives them different numbers is preserved, or the expression is refused; it never comes back as something else"""
+    n = case["name"]
+    plain, dummy, wild, real = sympy.Symbol(n), sympy.Dummy(n), sympy.Wild(n), sympy.Symbol(n, real=True)
+    k = 0
+    # (two symbols that also PRINT alike - two Dummy('x'), or x next to x with assumptions - cannot be told apart by a tree that stores names: outside the alphabet, see ASSUMPTIONS)
+    for a, b in ((plain, dummy), (plain, wild), (dummy, wild)):
+        for e in (a / b, a - b, sympy.cos(a) * sympy.sin(b), a + 2 * b, a ** b):
+            k += 1
+            try:
+                r = roundtrip(e)
+            except Exception:  # noqa: BLE001
+                continue          # refused: allowed
+            r = sympy.sympify(r)
+            fs = sorted(r.free_symbols, key=str)
+            if len(r.free_symbols) < 2:
+                return {"ok": False, "msg": "%s over two distinct symbols named %r came back as %s (the two symbols were merged)" % (sympy.srepr(e)[:120], n, r), "sig": "twins:merged", "ops": k}
+    return {"ok": True, "nt": True, "ops": k, "out": "twins"}
+
+
 def literal_case(case):
     from orquestra.quantum.circuits.symbolic._sorting import natural_key, natural_key_revlex
     s = [sympy.Symbol(n) for n in ("beta_10", "theta_2", "beta_2", "theta_1", "theta_1_10", "theta_1_2", "x2_y10", "x2_y9")]
@@ -345,7 +367,7 @@ def dialect_history_case(case):
     return {"ok": True, "nt": True, "out": "same"}
 
 
-FUNCS = {"symbol_names": symbol_name_case, "exact_numbers": exact_case, "refusal_history": refusal_history_case, "dialect_history": dialect_history_case, "trees": tree_case, "nary": tree_case, "unsupported": unsupported_case, "natural_keys": keys_case, **{"natural_keys_sep_%d" % ord(c): keys_case for c in ". ,:-[]() '{}²٣"}, "natural_keys_literal": literal_case}
+FUNCS = {"twin_symbols": twin_symbol_case, "symbol_names": symbol_name_case, "exact_numbers": exact_case, "refusal_history": refusal_history_case, "dialect_history": dialect_history_case, "trees": tree_case, "nary": tree_case, "unsupported": unsupported_case, "natural_keys": keys_case, **{"natural_keys_sep_%d" % ord(c): keys_case for c in ". ,:-[]() '{}²٣"}, "natural_keys_literal": literal_case}
 
 
 def depth1(atoms):
@@ -425,6 +447,7 @@ def run(run):
         sn = ["".join(p) for k in range(1, 6) for p in itertools.product("a" + sep + "012", repeat=k) if sep in p and any(c in "012" for c in p)]
         kc_sep = [{"names": sn[i:i + 600]} for i in range(0, len(sn), 600)] + [{"names": sn[i::37]} for i in range(0, 12)]
         secs.append(Section("natural_keys_sep_%d" % ord(sep), kc_sep, keys_case, horizon=300, chunk=1, desc="all names of length <= 5 over {a, %r, 0, 1, 2} that contain the separator and a digit" % sep))
+    secs.append(Section("twin_symbols", [{"name": n_} for n_ in ("x", "theta", "beta_2")], twin_symbol_case, desc="a plain Symbol next to a Dummy / Wild / assumption-carrying symbol of the same name in one expression: never merged"))
     alpha = "ab_0129"
     Ln = 5 if thorough else 4
     names = ["".join(p) for k in range(1, Ln + 1) for p in itertools.product(alpha, repeat=k)]
